@@ -152,6 +152,46 @@ fn frame(p: &Pools, rng: &mut Rng) -> (Vector3<Q>, Vector3<Q>, Vector3<Q>) {
 }
 const ROT3: &[&str] = &["Matrix3", "Matrix4", "Basis3", "Quaternion"];
 
+// ------------------------------------------------------------------ C01: the action of the homogeneous constructors
+// from_translation / from_scale / from_nonuniform_scale / the embedding of a dense linear part, and their products in
+// either order, applied to a point and to a vector through every Transform implementation of a matrix
+// (Matrix3 acting on Point2, Matrix4 acting on Point3) and, for comparison, as the plain product with the
+// homogeneous column (w = 1 for points, w = 0 for vectors).
+fn gen_c01(_p: &Pools, rng: &mut Rng, pb: &mut PB) {
+    let dim = 2 + rng.below(2);
+    let nzv2 = |rng: &mut Rng| Vector2::new(small_nz(rng), small_nz(rng));
+    let nzv3 = |rng: &mut Rng| Vector3::new(small_nz(rng), small_nz(rng), small_nz(rng));
+    let (off, pt, vc, hp, hv) = if dim == 2 {
+        let (o, p, v) = (nzv2(rng), nzv2(rng), nzv2(rng));
+        (pb.load(Val::V2(o)), pb.load(Val::P2(Point2::from_vec(p))), pb.load(Val::V2(v)), pb.load(Val::V3(p.extend(q(1, 1)))), pb.load(Val::V3(v.extend(q(0, 1)))))
+    } else {
+        let (o, p, v) = (nzv3(rng), nzv3(rng), nzv3(rng));
+        (pb.load(Val::V3(o)), pb.load(Val::P3(Point3::from_vec(p))), pb.load(Val::V3(v)), pb.load(Val::V4(p.extend(q(1, 1)))), pb.load(Val::V4(v.extend(q(0, 1)))))
+    };
+    let tm = pb.call("from_translation", "m", &[off]);
+    let ty = pb.load(t(if dim == 2 { "Matrix3" } else { "Matrix4" }));
+    let lin = match rng.below(3) {
+        0 => { let k = pb.load(vs(small_nz(rng))); pb.call("from_scale", "m", &[ty, k]) }
+        1 => { let ks: Vec<usize> = (0..dim).map(|_| pb.load(vs(small_nz(rng)))).collect(); pb.call("from_nonuniform_scale", "m", &ks) }
+        _ => {
+            let m = if dim == 2 { pb.load(Val::M2(Matrix2::from_cols(nzv2(rng), nzv2(rng)))) } else { pb.load(Val::M3(Matrix3::from_cols(nzv3(rng), nzv3(rng), nzv3(rng)))) };
+            let n = pb.load(Val::I(dim as i64 + 1));
+            pb.call("embed", "m", &[m, n])
+        }
+    };
+    let a = pb.call("mul", *rng.pick(&["vv", "rv", "vr", "rr"]), &[tm, lin]);
+    let b = pb.call("mul", *rng.pick(&["vv", "rv", "vr", "rr"]), &[lin, tm]);
+    // four scratch registers receive the results (the trace records every one of them)
+    let (s1, s2, s3, s4) = (pb.load(Val::Nil), pb.load(Val::Nil), pb.load(Val::Nil), pb.load(Val::Nil));
+    for &m in &[tm, lin, a, b] {
+        pb.call_into("transform_point", "m", &[m, pt], s1);
+        pb.call_into("transform_vector", "m", &[m, vc], s2);
+        pb.call_into("mul", "vv", &[m, hp], s3);
+        pb.call_into("mul", "vv", &[m, hv], s4);
+    }
+    if rng.chance(1, 2) { pb.call_into("inverse_transform_vector", "m", &[a, vc], s1); }
+}
+
 // ------------------------------------------------------------------ C05
 fn gen_c05(p: &Pools, rng: &mut Rng, pb: &mut PB) {
     let a = uq(p, rng);
@@ -1202,25 +1242,31 @@ fn gen_c20(p: &Pools, rng: &mut Rng, pb: &mut PB) {
 
 /// C19 systematic part: for every compound type and every component position, a failure (or a distinct value)
 /// at exactly that position, cycling through the 12 x 12 scalar pairs
-fn cover_c19(out: &mut Vec<String>, pid: &mut u64) {
+fn cover_c19(out: &mut Vec<String>, pid: &mut u64, full: bool) {
     let types = ["Vector1", "Vector2", "Vector3", "Vector4", "Point1", "Point2", "Point3", "Matrix2", "Matrix3", "Matrix4", "Quaternion"];
     let distinct = ["one", "two", "seven", "hundred", "zero", "one", "two", "seven", "hundred", "zero", "one", "two", "seven", "hundred", "zero", "one"];
-    let risky = ["max", "min", "neg1", "nan", "inf", "half", "p200", "p70000", "huge"];
+    let risky = ["max", "min", "neg1", "nan", "inf", "half", "p200", "p70000", "huge",
+                 "dr1", "dr2", "ndr1", "frac", "nfrac", "tiny", "edge", "nedge", "u8edge", "negfrac", "ninf", "big", "mid"];
+    let mut emit = |ty: &str, n: usize, i: usize, r: &str, src: &str, dst: &str| {
+        let mut pb = PB::new();
+        let mut a = vec![pb.load(t(ty)), pb.load(t(src)), pb.load(t(dst))];
+        for j in 0..n { a.push(pb.load(t(if j == i { r } else { distinct[(j + i) % 16] }))); }
+        pb.call("cast", "m", &a);
+        pb.fsafe = true;
+        *pid += 1;
+        if let Some(s) = pb.finish(*pid, &["f64"]) { out.push(s); }
+    };
     let mut k = 0usize;
     for ty in types.iter() {
         let n = ncomp(ty);
+        let dsts: &[&str] = if *ty == "Quaternion" { &["f32", "f64"] } else { &SCALARS };
         for i in 0..n {
-            for r in risky.iter() {
-                k += 1;
-                let src = SCALARS[(k * 5) % 12];
-                let dst = if *ty == "Quaternion" { ["f32", "f64"][k % 2] } else { SCALARS[(k * 7 + k / 12) % 12] };
-                let mut pb = PB::new();
-                let mut a = vec![pb.load(t(ty)), pb.load(t(src)), pb.load(t(dst))];
-                for j in 0..n { a.push(pb.load(t(if j == i { r } else { distinct[(j + i) % 16] }))); }
-                pb.call("cast", "m", &a);
-                pb.fsafe = true;
-                *pid += 1;
-                if let Some(s) = pb.finish(*pid, &["f64"]) { out.push(s); }
+            if full || *ty == "Quaternion" || n == 1 {
+                // every source/target pair with every special value at this position
+                for src in SCALARS.iter() { for dst in dsts.iter() { for r in risky.iter() { emit(ty, n, i, r, src, dst); } } }
+            } else {
+                // every source/target pair at this position, the special values cycling
+                for src in SCALARS.iter() { for dst in dsts.iter() { for _ in 0..2 { k += 1; emit(ty, n, i, risky[k % risky.len()], src, dst); } } }
             }
         }
     }
@@ -1228,7 +1274,7 @@ fn cover_c19(out: &mut Vec<String>, pid: &mut u64) {
 
 pub fn drive2(profile: &str, seed: u64, count: usize) -> Vec<String> {
     let gen: fn(&Pools, &mut Rng, &mut PB) = match profile {
-        "C05" => gen_c05, "C06" => gen_c06, "C07" => gen_c07, "C08" => gen_c08, "C09" => gen_c09, "C10" => gen_c10,
+        "C01" => gen_c01, "C05" => gen_c05, "C06" => gen_c06, "C07" => gen_c07, "C08" => gen_c08, "C09" => gen_c09, "C10" => gen_c10,
         "C11" => gen_c11, "C13" => gen_c13, "C14" => gen_c14, "C15" => gen_c15,
         "C16" => gen_c16, "C18" => gen_c18, "C19" => gen_c19, "C20" => gen_c20,
         _ => return Vec::new(),
@@ -1253,6 +1299,6 @@ pub fn drive2(profile: &str, seed: u64, count: usize) -> Vec<String> {
         if profile == "C19" || profile == "C20" { pb.fsafe = true; }
         if let Some(s) = pb.finish(pid, scs) { out.push(s); }
     }
-    if profile == "C19" { cover_c19(&mut out, &mut pid); }
+    if profile == "C19" { cover_c19(&mut out, &mut pid, count >= 10000); }
     out
 }
